@@ -86,7 +86,7 @@ class C03(Prop):
             case = family_case(rng, n, rng.randint(3, 9))
             case["kind"] = "family"
             return case
-        cfg = gen.GenCfg(n_ranks=1, n_steps=rng.choice([0, 1, 2]), p_launch=rng.choice([0.2, 0.5]), p_sync=rng.choice([0, 0.1]),
+        cfg = gen.GenCfg(n_ranks=rng.choice([1, 1, 2]), n_steps=rng.choice([0, 1, 2]), p_launch=rng.choice([0.2, 0.5]), p_sync=rng.choice([0, 0.1]),
                          adv=rng.choice([(0, 0, 1), (0, 0, 1, 1, 2, 3), (0, 1, 2)]), max_depth=rng.choice([2, 3, 5]),
                          n_extra_threads=rng.choice([0, 0, 1, 2]), base=rng.choice([0, 1000]), extras=rng.random() < 0.5,
                          streams=rng.choice([(7,), (7, 9)]))
@@ -103,32 +103,39 @@ class C03(Prop):
         obs = {"prop": "C03", "err": "", "threads": [], "cgErr": ""}
         with hta.CaseDir("c03") as d:
             ta = write_and_load(case, d)
-            df = ta.t.get_trace(0)
-            host = df[df["stream"].eq(-1) & df["pid"].ne(0)]
             threads = []
-            for (pid, tid), dft in host.groupby(["pid", "tid"]):
+            for rank in sorted(ta.t.traces):
+              df = ta.t.get_trace(rank)
+              host = df[df["stream"].eq(-1) & df["pid"].ne(0)]
+              for (pid, tid), dft in host.groupby(["pid", "tid"]):
                 ev = [{"id": int(i), "ts": hta.ival(t), "dur": hta.ival(du)} for i, t, du in zip(dft["index"], dft["ts"], dft["dur"])]
                 ids = {e["id"] for e in ev}
-                th = {"pid": int(pid), "tid": int(tid), "events": ev, "new": [], "newErr": "", "old": [], "oldErr": "", "cg": []}
+                th = {"rank": int(rank), "pid": int(pid), "tid": int(tid), "events": ev, "new": [], "newErr": "", "old": [], "oldErr": "", "cg": [], "cgn": []}
                 full = df[df["pid"].eq(pid) & df["tid"].eq(tid)].copy()
                 try:
-                    csg = new_cs.CallStackGraph(full.copy(), new_cs.CallStackIdentity(0, int(pid), int(tid)), get_cpu_gpu_correlation(df),
+                    csg = new_cs.CallStackGraph(full.copy(), new_cs.CallStackIdentity(int(rank), int(pid), int(tid)), get_cpu_gpu_correlation(df),
                                                 df.copy(), ta.t.symbol_table, save_call_stack_to_df=False)
                     th["new"] = _proj_nodes(csg.get_nodes(), ids)
                 except BaseException as ex:
                     th["newErr"] = hta.exc_str(ex)
                 try:
-                    ocsg = old_cs.CallStackGraph(full.copy(), old_cs.CallStackIdentity(0, int(pid), int(tid)))
+                    ocsg = old_cs.CallStackGraph(full.copy(), old_cs.CallStackIdentity(int(rank), int(pid), int(tid)))
                     th["old"] = _proj_nodes(ocsg.get_nodes(), ids)
                 except BaseException as ex:
                     th["oldErr"] = hta.exc_str(ex)
                 threads.append((th, ids))
             try:
-                cg = CallGraph(ta.t, ranks=[0])
-                out = cg.trace_data.get_trace(0)
+                cg = CallGraph(ta.t)                       # one call graph over all ranks
                 for th, ids in threads:
+                    out = cg.trace_data.get_trace(th["rank"])
                     sub = out.loc[sorted(ids)]
                     th["cg"] = [{"id": int(i), "par": hta.ival(p), "dep": hta.ival(dp)} for i, p, dp in zip(sub["index"], sub["parent"], sub["depth"])]
+                    # the node map of that rank's call stacks (CallStackGraph.get_nodes()), read after every rank has been built
+                    nodes = {}
+                    for csi, stack in cg.rank_to_stacks[th["rank"]].items():
+                        if csi.pid == th["pid"] and csi.tid == th["tid"]:
+                            nodes = stack.get_nodes()
+                    th["cgn"] = _proj_nodes(nodes, ids)
             except BaseException as ex:
                 obs["cgErr"] = hta.exc_str(ex)
             obs["threads"] = [th for th, _ in threads]
